@@ -340,6 +340,84 @@ func runOps(c *hx.Ctx, init []string, nops int, dups bool) {
 	}
 }
 
+// ---- the size dimension ---------------------------------------------------------------------
+//
+// Key-distinct lists of 60–260 tags over an alphabet of 70–300 generated keys.  Keys are aimed at the
+// positions where a word-sized or block-sized shortcut would break: 0, 1, 62–66, 127–130, last-1, last
+// (and absent keys), for Get / ModifyOrAddTag / RemoveTag and for RemoveTags with 2–10 keys.
+
+func edgePosition(r *hx.Rand, n int) int {
+	edges := []int{0, 1, 62, 63, 64, 65, 66, 127, 128, 129, 130, n - 2, n - 1}
+	for try := 0; try < 4; try++ {
+		if p := edges[r.Intn(len(edges))]; p >= 0 && p < n {
+			return p
+		}
+	}
+	return r.Intn(n)
+}
+
+func bigKey(r *hx.Rand, t b6.Tags, alphabet int) string {
+	switch {
+	case len(t) > 0 && r.Chance(3, 5):
+		return t[edgePosition(r, len(t))].Key
+	case len(t) > 0 && r.Chance(1, 2):
+		return t[r.Intn(len(t))].Key
+	}
+	return fmt.Sprintf("k%d", r.Intn(alphabet)) // possibly absent
+}
+
+func bigCase(c *hx.Ctx) {
+	r := c.Rand
+	alphabet := 70 + r.Intn(231)
+	n := 60 + r.Intn(201)
+	if n > alphabet {
+		n = alphabet
+	}
+	p := r.Perm(alphabet)
+	t := make(b6.Tags, 0, n+r.Intn(4))
+	for i := 0; i < n; i++ {
+		t = append(t, tag(fmt.Sprintf("k%d", p[i]), val(r)))
+	}
+	opInit(c, t)
+	c.Note(fmt.Sprintf("big:len>=%d", n/64*64))
+	beyond := false
+	for i, nops := 0, 5+r.Intn(8); i < nops && len(t) > 0; i++ {
+		switch r.Intn(6) {
+		case 0:
+			opGet(c, t, bigKey(r, t, alphabet))
+			c.Note("big:get")
+		case 1:
+			opSet(c, &t, bigKey(r, t, alphabet), val(r))
+			c.Note("big:set")
+		case 2:
+			opRm(c, &t, bigKey(r, t, alphabet))
+			c.Note("big:rm")
+		default:
+			m := 2 + r.Intn(9)
+			var ks []string
+			for j := 0; j < m; j++ {
+				ks = append(ks, bigKey(r, t, alphabet))
+			}
+			for _, k := range ks {
+				for pos, tg := range t {
+					if tg.Key == k && pos >= 64 {
+						beyond = true
+						c.Note("big:rms-target-at-position>=64")
+					}
+				}
+			}
+			opRms(c, &t, ks)
+			c.Note("big:rms")
+		}
+	}
+	if !distinct(t) {
+		c.Note("case:BUG-generator-lost-distinctness")
+	}
+	if beyond {
+		c.NonTrivial()
+	}
+}
+
 func contains(xs []string, k string) bool {
 	for _, x := range xs {
 		if x == k {
@@ -352,7 +430,7 @@ func contains(xs []string, k string) bool {
 func main() {
 	hx.Main(hx.Family{
 		Name: "c39",
-		Rule: fmt.Sprintf("cases 0..%d: bounded-exhaustive (every key-distinct list of length <=4 over 5 keys x every single-key get/set/rm and RemoveTags of every key subset in two orders, with and without spare capacity); other cases: random op sequences (get/set/add/rm/rms/merge/clone + snap/swap/mergeo/chk aliasing probes) over an 8-key alphabet, 1 in 10 on a list with repeated keys (outside the property's domain, model comparison only); non-trivial = exhaustive list of length >=2, or a RemoveTags call removing >=2 present keys, or an aliasing probe re-read; distinct = by hash of the op text", nExhaustive-1),
+		Rule: fmt.Sprintf("cases 0..%d: bounded-exhaustive (every key-distinct list of length <=4 over 5 keys x every single-key get/set/rm and RemoveTags of every key subset in two orders, with and without spare capacity); 1 in 25 of the other cases: key-distinct lists of 60-260 tags over 70-300 generated keys with get/set/rm/RemoveTags(2-10 keys) aimed at positions 0,1,62-66,127-130,last-1,last (buckets big:*); the rest: random op sequences (get/set/add/rm/rms/merge/clone + snap/swap/mergeo/chk aliasing probes) over an 8-key alphabet, 1 in 10 on a list with repeated keys (outside the property's domain, model comparison only); non-trivial = exhaustive list of length >=2, or a RemoveTags call removing >=2 present keys, or an aliasing probe re-read, or a big list with a RemoveTags target at position >= 64; distinct = by hash of the op text", nExhaustive-1),
 		Quick:    nExhaustive + 3000,
 		Thorough: nExhaustive + 200000,
 		Corpus: func(c *hx.Ctx) {
@@ -400,6 +478,10 @@ func main() {
 		Case: func(c *hx.Ctx) {
 			if c.CaseNo < nExhaustive {
 				exhaustive(c, lists[c.CaseNo])
+				return
+			}
+			if (c.CaseNo-nExhaustive)%25 == 7 { // 4 %: the size dimension
+				bigCase(c)
 				return
 			}
 			r := c.Rand
